@@ -38,4 +38,17 @@ func VerifHarness_C09_client_classify() {
 	vReach("end")
 }
 
+// A TURN-only client (no STUN server address configured) classifies every datagram without crashing, too.
+//
+//verif:props=C09,C13 bounds="arbitrary datagram of 0..8 bytes from an arbitrary source; client without STUNServerAddr; no relayed conn"
+func VerifHarness_C09_client_classify_without_stun_server() {
+	conn := &allocation.VPacketConn{Name: "client"}
+	c := vNewClient(conn, 200e6)
+	data := vBytes(8)
+	handled, err := c.HandleInbound(data, allocation.VUDPAddr4())
+	vAssert(vOr(handled, err == nil), "C09.never_unhandled_with_error")
+	vAssert(vLocksHeld() == 0, "C09.no_lock_left_held")
+	vReach("end")
+}
+
 var _ = client.NewTransactionMap
